@@ -2,9 +2,9 @@ SPECIFICATION Spec
 CONSTANTS
   Kinds = {"W", "F", "O"}
   Lose = {FALSE, TRUE}
-  MaxSrc = 5
+  MaxSrc = 4
   MaxCopies = 2
-  MaxSends = 3
+  MaxSends = 2
   MaxTgtW = 1
 VIEW View
 INVARIANTS TypeOK C39_AtMostOnce C39_NoLossAfterSwitch C39_FenceClosesSource C39_Recoverable
